@@ -49,10 +49,12 @@ class CompoundGammaDirichletPrior(CallableModel):
     def _call(self, *args, **kwargs) -> Tensor:
         taxa_count = self.tree_model.taxa_count
         x = self.tree_model.branch_lengths()
-        sum_x = x.sum(-1)
+        # keep the last dimension: the hyperparameters have shape [..., 1]
+        sum_x = x.sum(-1, keepdim=True)
         return (
-            torch.sum(x[..., :taxa_count].log(), -1) * (self.alpha.tensor - 1)
-            + torch.sum(x[..., taxa_count:].log(), -1)
+            torch.sum(x[..., :taxa_count].log(), -1, keepdim=True)
+            * (self.alpha.tensor - 1)
+            + torch.sum(x[..., taxa_count:].log(), -1, keepdim=True)
             * (self.c.tensor * self.alpha.tensor - 1)
             - torch.lgamma(self.alpha.tensor) * taxa_count
             - torch.lgamma(self.c.tensor * self.alpha.tensor) * (taxa_count - 3)
